@@ -384,6 +384,9 @@ class FSM(object):
         :param data: bgp notification error data
         """
 
+        if self.state == bgp_cons.ST_IDLE:
+            # Idle ignores message events (RFC 4271 8.2.2); the connection is already closing
+            return
         self.protocol.send_notification(bgp_cons.ERR_MSG_HDR, suberror, data)
         # Note: RFC4271 states that we should send ERR_FSM in the
         # Established state, which contradicts earlier statements.
@@ -401,6 +404,9 @@ class FSM(object):
         :param data: bgp notification error data
         """
 
+        if self.state == bgp_cons.ST_IDLE:
+            # Idle ignores message events (RFC 4271 8.2.2); the connection is already closing
+            return
         self.protocol.send_notification(bgp_cons.ERR_MSG_OPEN, suberror, data)
         # Note: RFC4271 states that we should send ERR_FSM in the
         # Established state, which contradicts earlier statements.
